@@ -410,4 +410,35 @@ theorem others_invisible {bound : Nat} {m0 : Nat → NMap} (r : Nat) (ops : List
     have h2 := view_step_other q r op hq inv pv h.1
     exact ⟨h1.1.trans h2.1, h1.2.trans h2.2⟩
 
+/-! ### the compiler's side: (R1)–(R4) give `allH` -/
+
+theorem contract_find (cs : List CScope) :
+    ∀ v, firstVar cs = some v → v.strict = false →
+      (rtChain (markEval cs)).find? (·.isVar) = some ⟨v.mapId, true, true⟩ := by
+  induction cs with
+  | nil => intro v h; simp [firstVar] at h
+  | cons sc rest ih =>
+    intro v hv hs
+    by_cases hsv : sc.isVar = true
+    · have : v = sc := by simpa [firstVar, List.find?, hsv] using hv.symm
+      subst this
+      simp [markEval, hsv, hs, rtChain, List.find?]
+    · have hsv' : sc.isVar = false := by simpa using hsv
+      have hv' : firstVar rest = some v := by simpa [firstVar, List.find?, hsv'] using hv
+      have := ih v hv' hs
+      simp only [markEval, hsv', Bool.false_eq_true, if_false, rtChain, List.filterMap_cons]
+      cases hds : (sc.dyn || sc.stash)
+      · simpa [rtChain] using this
+      · simp only [if_true, List.find?, hsv', Bool.false_eq_true]
+        simpa [rtChain] using this
+
+/-- If the innermost variable scope of the chain in which a direct eval is compiled is not strict, then at run time the
+stash bindVars targets owns a private copy of its names map — (R1)–(R4) give `allH`. -/
+theorem contract_target_own (cs : List CScope) (v : CScope) (hv : firstVar cs = some v) (hs : v.strict = false)
+    (t : Stash) (ht : target (rtChain (markEval cs)) = some t) : t.own = true := by
+  have hf := contract_find cs v hv hs
+  simp [target, hf] at ht
+  subst ht
+  rfl
+
 end GojaModel.C16.Names
